@@ -93,6 +93,33 @@ pub fn run(ctx: &Ctx, rep: &mut Reporter) -> Json {
                     rep.violation(case_idx, "implied-length", "output length differs from the length implied by its own header", d);
                 }
             }
+            // two other kinds of destination: a sink that only implements `write` (what every
+            // user-defined writer looks like) and a pre-sized cursor
+            {
+                struct Plain(Vec<u8>);
+                impl std::io::Write for Plain {
+                    fn write(&mut self, b: &[u8]) -> std::io::Result<usize> {
+                        self.0.extend_from_slice(b);
+                        Ok(b.len())
+                    }
+                    fn flush(&mut self) -> std::io::Result<()> {
+                        Ok(())
+                    }
+                }
+                let mut p = Plain(vec![]);
+                let rp = cur::write_cache_to(&text, &mut p);
+                let mut cur_buf = std::io::Cursor::new(vec![0xAAu8; a.len()]);
+                let rc = cur::write_cache_to(&text, &mut cur_buf);
+                rep.count("evaluations", 2);
+                rep.count("writes", 2);
+                rep.count("writes_into_other_kinds_of_sink", 2);
+                if rp.is_err() || p.0 != a {
+                    rep.violation(case_idx, "determinism", "serialisation into a plain write-only sink differs from the one into a Vec", mk("plain write-only sink", &a, &p.0));
+                }
+                if rc.is_err() || cur_buf.get_ref() != &a {
+                    rep.violation(case_idx, "determinism", "serialisation into a pre-sized Cursor differs from the one into a Vec", mk("cursor", &a, cur_buf.get_ref()));
+                }
+            }
             // the same bytes at eight different address alignments (and hence different
             // positions relative to any word-at-a-time scanning inside the parser)
             {
